@@ -1088,11 +1088,12 @@ func (g *generatorObject) _return(v Value) Value {
 	canContinue := g.gen.enterNextFinallyFrame()
 	if !canContinue {
 		vm := g.gen.vm
-		g.state = genStateCompleted
 
 		vm.popTryFrame()
 
+		// the generator is still running while the iterators which are open in its body are being closed
 		ex := vm.restoreStacks(g.gen.iterStackLen, g.gen.refStackLen)
+		g.state = genStateCompleted
 
 		if ex != nil {
 			panic(ex)
